@@ -3,5 +3,5 @@ sys.path.insert(0,os.path.dirname(os.path.dirname(os.path.abspath(__file__))))
 from jobs_lib import vf,blk,other
 def jobs(tier):
     return vf(tier,'C12')
-CLAIM={'text':"Bounded model checking with fault-injecting callbacks: failed opens never close the data source and leave the handle cleared; a failing seek leaves the library's file position and sync buffer untouched; backward page searches terminate under persisting end-of-data (recurrence/lasso check); I/O leaf functions return documented codes.",
- 'note':'Trusted: contract stubs (vf_env.h). Post-failure equivalence of a later seek with a never-failed handle is argued from the state the failing functions leave (offset untouched, decode machine dumped), per function; seek_error paths of the individual seeks are covered only where the seek harnesses exist (page-bisect, pcm-exact do not inject faults yet).'}
+CLAIM={'text':'Bounded model checking with fault-injecting callbacks: failed opens never close the data source and leave the handle cleared; a failing seek leaves the file position of the library and the sync buffer untouched; backward page searches terminate under persisting end-of-data (recurrence/lasso check); I/O leaf functions return documented codes; after a failed seek (decode machine dumped, position -1, no link set up) every query function stays inside the tables (F-info: D23) and a later page seek sets the handle up again so that sample seeks work (page-bisect from the OPENED state: D24); header fetch error exits clear exactly what they initialised.',
+ 'note':'Trusted: contract stubs (vf_env.h). Post-failure equivalence of a later seek with a never-failed handle is argued per function from the state the failing functions leave (offset untouched, decode machine dumped) plus the page-seek harness started from that state; fault injection inside the bisection loop of ov_pcm_seek_page and inside ov_pcm_seek is not modelled (their seek_error exits are not explored).'}
